@@ -1,5 +1,5 @@
 """C07 — an abandoned request (timeout, dropped stream) never harms the server."""
 from contracts.server import UNITS_C07, ASSUMPTIONS
 from contracts.fifo import ConsumerUnit, ConsumerUnitNoPre
-UNITS = list(UNITS_C07)
+UNITS = list(UNITS_C07) + [ConsumerUnit, ConsumerUnitNoPre]
 SCENARIOS = [('', 'replay/scenarios/c07_cancel_window.py')]
